@@ -22,7 +22,7 @@ YOUR TASK: produce ONE realistic change to the NON-TEST source of pg-bifrost (th
   (b) the EXISTING tests of every package you touched still pass, unedited (`go test -vet=off -count=1 ./<pkg>/...`; transport/progress has a few timing-flaky tests: rerun once if one of those flakes; do not run the whole suite, it takes 25 minutes),
   (c) the breakage is NOT exposed by ordinary use at once: it must need something specific to manifest: a particular interleaving or completion order, a fault at a particular point, a multi-step sequence, an unusual but legitimate input or configuration, a boundary value, or two cooperating sites. Do not change exported signatures, do not touch files whose first line is `//go:build verif`, do not edit tests, docs, go.mod.
 
-{n} earlier changes are listed below; yours must be DIFFERENT in mechanism AND in code site, and must aim at a clause of the property's statement, or a dimension of its quantification, that these do not exercise. Be inventive about WHERE the fault lives and WHAT it needs. Directions nobody has taken yet or only once: the way main/main.go and app/runner.go hand configuration (flags AND environment variables, defaults, units: milliseconds vs seconds, counts) to the stages for sinks OTHER than Kinesis (s3, rabbitmq, kafka, stdout); transport/factory and each transporter's factory.go; the order in which stages are started and stopped and what is closed when; the shutdown package itself; what happens on the SECOND occurrence of something (second reconnect, second error response, second flush of a key, second tick without traffic, second scan of the aggregator); long-running state (counters that wrap, maps that grow, timers that drift); interplay of two legitimate options (e.g. partitioning with routing with worker count; whitelist with regex; no-marshal-old-value with TOAST; s3 key space with buckets); numeric edge cases of LSNs (0/0, X/FFFFFFFF -> X+1/0, upper half of 64 bits); empty things (empty transaction, empty batch, empty table list, empty key). The change must still look like something a maintainer could commit.
+{n} earlier changes are listed below; yours must be DIFFERENT in mechanism AND in code site, and must aim at a clause of the property's statement, or a dimension of its quantification, that these do not exercise. Be inventive about WHERE the fault lives and WHAT it needs. Directions nobody has taken yet or only once: the progress tracker's own loop (transport/progress/progress_tracker.go: ticker, channel reads, what happens when its output channel is full or a report arrives while it is emitting); transport/batcher/queue and the batcher's routing of batches to worker queues (queue depth, blocking, fairness between keys); the marshaller stage around the JSON rendering (stage loop, stats, what it copies from the WAL message: TimeBasedKey, WalStart, PartitionKey); the filter/partitioner stage loops (channel handling, panics, shutdown); replication.XLogDataToWalMessage and the WalMessage fields derived there; utils (hashing, env parsing); stats reporters and the stats channel plumbing; RabbitMQ factory/batch factory and its flags; S3 factory and its flags; the ledger's index structures on rarely used paths (same commit position for two transactions, transaction with zero rows, Count > TotalMsgs, duplicate COMMIT); Go-level pitfalls: loop variable capture in a goroutine, a slice appended to while aliased, a defer inside a loop, a select with a default that turns blocking into dropping, an integer conversion, time arithmetic on a monotonic vs wall clock, a map iterated while modified. The change must still look like something a maintainer could commit.
 {sums}
 
 Then write a DEMONSTRATION: a new Go test file (or files) placed in the relevant package directory (name it zz_seeded_demo_test.go; it may use the package's internals and the repo's existing mocks) that FAILS with your change and PASSES on the unchanged code, deterministically. Check it three times each way: save your source change with `git diff -- . ':!*_test.go' > {out}/patch.diff`, then `git apply -R {out}/patch.diff` (demo must PASS), `git apply {out}/patch.diff` (demo must FAIL). NEVER use `git stash` (it is shared between worktrees). The demo must show the property being violated (not merely that code differs).
